@@ -176,4 +176,271 @@ theorem specCov_symm (a b : List ℝ) (u : Bool) (h : a.length = b.length) : Spe
   have hd : (a.length : ℝ) = (b.length : ℝ) := by rw [h]
   rw [zipWith_comm_of (g := fun x y => (x - b.sum / (b.length : ℝ)) * (y - a.sum / (a.length : ℝ))) (by intro x y; ring) a b, hd]
 
+/-! ### extrema -/
+
+/-- the comparisons handed to the extremum loops are strict weak orders -/
+structure StrictWeak {β : Type} (better : β → β → Bool) : Prop where
+  irrefl : ∀ a, better a a = false
+  trans : ∀ a b c, better a b = true → better b c = true → better a c = true
+  negTrans : ∀ a b c, better a b = false → better b c = false → better a c = false
+
+theorem isFirstExtremum_iff {β : Type} (better : β → β → Bool) (v : List β) (pos : Nat) :
+    IsFirstExtremum better v pos ↔
+      ∃ m, v[pos]? = some m ∧ (∀ y ∈ v, better y m = false) ∧ (∀ y ∈ v.take pos, better m y = true) := by
+  unfold IsFirstExtremum
+  split
+  · rename_i h; simp [h]
+  · rename_i m h; simp [h]
+
+theorem extremum_fold_spec {β : Type} {better : β → β → Bool} (hb : StrictWeak better) (xs : List β) (x : β) :
+    (xs.foldl (fun m y => if better y m then y else m) x) ∈ x :: xs ∧
+    ∀ y ∈ x :: xs, better y (xs.foldl (fun m y => if better y m then y else m) x) = false := by
+  induction xs generalizing x with
+  | nil => simp [hb.irrefl]
+  | cons z zs ih =>
+    simp only [List.foldl_cons]
+    by_cases hz : better z x = true
+    · simp only [hz, if_true]
+      obtain ⟨hm, hall⟩ := ih z
+      refine ⟨by simp only [List.mem_cons] at hm ⊢; tauto, ?_⟩
+      intro y hy
+      simp only [List.mem_cons] at hy
+      rcases hy with rfl | rfl | hy
+      · -- y = x : z beats x, result is not beaten by z
+        have h1 := hall z (by simp)
+        by_contra hc
+        have hc' : better y (zs.foldl (fun m y => if better y m then y else m) z) = true := by simpa using hc
+        -- better z x, better x r → better z r, contradiction
+        have := hb.trans _ _ _ hz hc'
+        simp [this] at h1
+      · exact hall _ (by simp)
+      · exact hall _ (by simp [hy])
+    · have hz' : better z x = false := by simpa using hz
+      simp only [hz', Bool.false_eq_true, if_false]
+      obtain ⟨hm, hall⟩ := ih x
+      refine ⟨by simp only [List.mem_cons] at hm ⊢; tauto, ?_⟩
+      intro y hy
+      simp only [List.mem_cons] at hy
+      rcases hy with rfl | rfl | hy
+      · exact hall _ (by simp)
+      · exact hb.negTrans _ _ _ hz' (hall x (by simp))
+      · exact hall _ (by simp [hy])
+
+theorem whichLoop_spec {β : Type} {better : β → β → Bool} (hb : StrictWeak better)
+    (ys pre : List β) (m : β) (pos i : Nat) (hi : i = pre.length) (hm : pre[pos]? = some m)
+    (h1 : ∀ y ∈ pre, better y m = false) (h2 : ∀ y ∈ pre.take pos, better m y = true) :
+    IsFirstExtremum better (pre ++ ys) (whichLoop better m pos i ys) := by
+  induction ys generalizing pre m pos i with
+  | nil =>
+    rw [isFirstExtremum_iff]; simp only [whichLoop, List.append_nil]
+    exact ⟨m, hm, h1, h2⟩
+  | cons y ys ih =>
+    have hpos : pos < pre.length := by
+      rcases Nat.lt_or_ge pos pre.length with h | h
+      · exact h
+      · simp [List.getElem?_eq_none h] at hm
+    simp only [whichLoop]
+    have happ : pre ++ y :: ys = (pre ++ [y]) ++ ys := by simp
+    by_cases hy : better y m = true
+    · simp only [hy, if_true]
+      rw [happ]
+      apply ih (pre ++ [y]) y i (i + 1) (by simp [hi])
+      · subst hi; simp
+      · intro z hz
+        simp only [List.mem_append, List.mem_singleton] at hz
+        rcases hz with hz | rfl
+        · by_contra hc
+          have hc' : better z y = true := by simpa using hc
+          have := hb.trans _ _ _ hc' hy
+          simp [h1 z hz] at this
+        · exact hb.irrefl _
+      · intro z hz
+        subst hi
+        simp only [List.take_left'] at hz
+        by_contra hc
+        have hc' : better y z = false := by simpa using hc
+        have := hb.negTrans _ _ _ hc' (h1 z hz)
+        simp [this] at hy
+    · have hy' : better y m = false := by simpa using hy
+      simp only [hy', Bool.false_eq_true, if_false]
+      rw [happ]
+      apply ih (pre ++ [y]) m pos (i + 1) (by simp [hi])
+      · rw [List.getElem?_append_left hpos]; exact hm
+      · intro z hz
+        simp only [List.mem_append, List.mem_singleton] at hz
+        rcases hz with hz | rfl
+        · exact h1 z hz
+        · exact hy'
+      · intro z hz
+        rw [List.take_append_of_le_length (Nat.le_of_lt hpos)] at hz
+        exact h2 z hz
+
+theorem whichExtremum_spec {β : Type} {better : β → β → Bool} (hb : StrictWeak better) (v : List β) (p : Nat)
+    (h : whichExtremum better v = .ok p) : IsFirstExtremum better v p := by
+  cases v with
+  | nil => simp [whichExtremum] at h
+  | cons x xs =>
+    simp only [whichExtremum, Except.ok.injEq] at h
+    subst h
+    have := whichLoop_spec hb xs [x] x 0 1 rfl (by simp) (by simp [hb.irrefl]) (by simp)
+    simpa using this
+
+theorem gt_strictWeak : StrictWeak (fun (y m : ℝ) => Scalar.gtb y m) where
+  irrefl a := by simp [Scalar.gtb]
+  trans a b c := by simp only [gtb_iff]; intro h1 h2; linarith
+  negTrans a b c := by
+    simp only [Scalar.gtb, ltb_false_iff]; intro h1 h2; linarith
+
+theorem lt_strictWeak : StrictWeak (fun (y m : ℝ) => Scalar.ltb y m) where
+  irrefl a := by simp
+  trans a b c := by simp only [ltb_iff]; intro h1 h2; linarith
+  negTrans a b c := by
+    simp only [ltb_false_iff]; intro h1 h2; linarith
+
+/-! ### sorting -/
+
+/-- the sort comparator `!(b < a)` derived from `<` on ℝ is `≤` -/
+theorem leOfLt_iff (a b : ℝ) : leOfLt Scalar.ltb a b = true ↔ a ≤ b := by
+  simp [leOfLt]
+
+theorem sortedBy_sortVals (v : List ℝ) : SortedBy Scalar.ltb (sortVals v) := by
+  unfold SortedBy sortVals
+  have := List.pairwise_mergeSort (le := leOfLt (Scalar.ltb (α := ℝ)))
+    (fun a b c h1 h2 => by rw [leOfLt_iff] at *; linarith)
+    (fun a b => by
+      rcases le_total a b with h | h
+      · simp [(leOfLt_iff a b).mpr h]
+      · simp [(leOfLt_iff b a).mpr h]) v
+  exact this.imp (fun {a b} h => by have := (leOfLt_iff a b).mp h; simpa using this)
+
+theorem sortVals_perm (v : List ℝ) : (sortVals v).Perm v := List.mergeSort_perm v _
+
+theorem filterMap_eq_map_of {α β : Type} (f : α → Option β) (g : α → β) (l : List α)
+    (h : ∀ x ∈ l, f x = some (g x)) : l.filterMap f = l.map g := by
+  induction l with
+  | nil => rfl
+  | cons a as ih =>
+    simp only [List.filterMap_cons, h a (by simp), List.map_cons]
+    rw [ih (fun x hx => h x (by simp [hx]))]
+
+theorem order_spec (v : List ℝ) (idx : List Nat) (h : order v = .ok idx) : IsSortingPerm Scalar.ltb v idx := by
+  unfold order at h
+  split at h
+  · simp at h
+  · simp only [Except.ok.injEq] at h
+    subst h
+    set S := v.zipIdx.mergeSort (fun a b => leOfLt Scalar.ltb a.1 b.1) with hS
+    have hperm : S.Perm v.zipIdx := List.mergeSort_perm _ _
+    constructor
+    · have := hperm.map Prod.snd
+      rw [List.zipIdx_map_snd] at this
+      rw [List.range_eq_range']; exact this
+    · have hfm : (S.map (·.2)).filterMap (fun i => v[i]?) = S.map (·.1) := by
+        rw [List.filterMap_map]
+        have : ∀ x ∈ S, ((fun i => v[i]?) ∘ (fun x : ℝ × Nat => x.2)) x = some x.1 := by
+          intro x hx
+          have := (hperm.mem_iff).mp hx
+          exact List.mem_zipIdx_iff_getElem?.mp this
+        exact filterMap_eq_map_of _ _ S this
+      rw [hfm]
+      unfold SortedBy
+      rw [List.pairwise_map]
+      have := List.pairwise_mergeSort (le := fun (a b : ℝ × Nat) => leOfLt Scalar.ltb a.1 b.1)
+        (fun a b c h1 h2 => by rw [leOfLt_iff] at *; linarith)
+        (fun a b => by
+          rcases le_total a.1 b.1 with h | h
+          · simp [(leOfLt_iff a.1 b.1).mpr h]
+          · simp [(leOfLt_iff b.1 a.1).mpr h]) v.zipIdx
+      exact this.imp (fun {a b} h => by have := (leOfLt_iff a.1 b.1).mp h; simpa using this)
+
+/-! ### median -/
+
+theorem sorted_getElem_le (s : List ℝ) (hs : SortedBy Scalar.ltb s) (i j : Nat) (hj : j < s.length) (hij : i ≤ j) :
+    s[i]'(by omega) ≤ s[j] := by
+  rcases Nat.lt_or_eq_of_le hij with h | h
+  · have := (List.pairwise_iff_getElem.mp hs) i j (by omega) hj h
+    simpa using this
+  · subst h; exact le_refl _
+
+/-- in a sorted list, at least `j+1` elements are `≤ m` when `s[j] ≤ m` -/
+theorem count_le_of_sorted (s : List ℝ) (hs : SortedBy Scalar.ltb s) (j : Nat) (hj : j < s.length) (m : ℝ)
+    (hm : s[j] ≤ m) : j + 1 ≤ s.countP (fun x => !(Scalar.ltb m x)) := by
+  have h1 : (s.take (j + 1)).countP (fun x => !(Scalar.ltb m x)) = (s.take (j + 1)).length := by
+    rw [List.countP_eq_length]
+    intro x hx
+    obtain ⟨i, hi, rfl⟩ := List.mem_take_iff_getElem.mp hx
+    have hi' : i ≤ j := by
+      have : i < Nat.min (j + 1) s.length := hi
+      have := Nat.lt_min.mp this
+      omega
+    have := sorted_getElem_le s hs i j hj hi'
+    simp only [Bool.not_eq_eq_eq_not, Bool.not_true, ltb_false_iff]; linarith
+  have h2 := (List.take_sublist (j + 1) s).countP_le (p := fun x => !(Scalar.ltb m x))
+  rw [h1, List.length_take] at h2
+  omega
+
+/-- in a sorted list, at least `n - j` elements are `≥ m` when `m ≤ s[j]` -/
+theorem count_ge_of_sorted (s : List ℝ) (hs : SortedBy Scalar.ltb s) (j : Nat) (hj : j < s.length) (m : ℝ)
+    (hm : m ≤ s[j]) : s.length - j ≤ s.countP (fun x => !(Scalar.ltb x m)) := by
+  have h1 : (s.drop j).countP (fun x => !(Scalar.ltb x m)) = (s.drop j).length := by
+    rw [List.countP_eq_length]
+    intro x hx
+    obtain ⟨i, hi, rfl⟩ := List.mem_drop_iff_getElem.mp hx
+    have := sorted_getElem_le s hs j (j + i) (by omega) (by omega)
+    simp only [Bool.not_eq_eq_eq_not, Bool.not_true, ltb_false_iff]; linarith
+  have h2 := (List.drop_sublist j s).countP_le (p := fun x => !(Scalar.ltb x m))
+  rw [h1, List.length_drop] at h2
+  exact h2
+
+theorem isMedian_perm {v s : List ℝ} (hp : s.Perm v) (m : ℝ) (h : IsMedian Scalar.ltb s m) : IsMedian Scalar.ltb v m := by
+  unfold IsMedian at *
+  rw [← hp.countP_eq, ← hp.countP_eq, ← hp.length_eq]; exact h
+
+theorem at?_eq_getElem {α : Type} (s : List α) (i : Nat) (h : i < s.length) : at? s i = .ok s[i] := by
+  simp [at?, List.getElem?_eq_getElem h]
+
+theorem median_sorted_case (s : List ℝ) (hs : SortedBy Scalar.ltb s) (hn : 2 ≤ s.length) :
+    ∃ m, (if s.length % 2 = 0 then (do
+        let a ← at? s (s.length / 2 - 1)
+        let b ← at? s (s.length / 2)
+        pure ((a + b) / Scalar.ofInt 2, s) : Res (ℝ × List ℝ))
+      else do
+        let b ← at? s (s.length / 2)
+        pure (b, s)) = .ok (m, s) ∧ IsMedian Scalar.ltb s m := by
+  have hk : s.length / 2 < s.length := by omega
+  have hk1 : s.length / 2 - 1 < s.length := by omega
+  by_cases hpar : s.length % 2 = 0
+  · rw [if_pos hpar, at?_eq_getElem s _ hk, at?_eq_getElem s _ hk1]
+    refine ⟨_, rfl, ?_⟩
+    have hab : s[s.length / 2 - 1] ≤ s[s.length / 2] := sorted_getElem_le s hs _ _ hk (by omega)
+    simp only [ofInt_eq, Int.cast_ofNat]
+    constructor
+    · have := count_le_of_sorted s hs (s.length / 2 - 1) hk1 ((s[s.length / 2 - 1] + s[s.length / 2]) / 2) (by linarith)
+      omega
+    · have := count_ge_of_sorted s hs (s.length / 2) hk ((s[s.length / 2 - 1] + s[s.length / 2]) / 2) (by linarith)
+      omega
+  · rw [if_neg hpar, at?_eq_getElem s _ hk]
+    refine ⟨_, rfl, ?_⟩
+    constructor
+    · have := count_le_of_sorted s hs (s.length / 2) hk s[s.length / 2] (le_refl _)
+      omega
+    · have := count_ge_of_sorted s hs (s.length / 2) hk s[s.length / 2] (le_refl _)
+      omega
+
+theorem median_spec' (v : List ℝ) (hv : v ≠ []) :
+    ∃ m s, median v = .ok (m, s) ∧ IsMedian Scalar.ltb v m ∧ s.Perm v ∧ (2 ≤ v.length → SortedBy Scalar.ltb s) := by
+  unfold median
+  have h0 : v.length ≠ 0 := by simpa using hv
+  rw [if_neg h0]
+  by_cases h1 : v.length = 1
+  · rw [if_pos h1]
+    obtain ⟨x, rfl⟩ := List.length_eq_one_iff.mp h1
+    refine ⟨x, [x], rfl, ?_, List.Perm.refl _, by simp⟩
+    simp [IsMedian]
+  · rw [if_neg h1]
+    have hn : 2 ≤ (sortVals v).length := by
+      rw [(sortVals_perm v).length_eq]; omega
+    obtain ⟨m, hm, hmed⟩ := median_sorted_case (sortVals v) (sortedBy_sortVals v) hn
+    exact ⟨m, sortVals v, hm, isMedian_perm (sortVals_perm v) m hmed, sortVals_perm v, fun _ => sortedBy_sortVals v⟩
+
 end Bpp.VecTools
